@@ -1226,6 +1226,96 @@ def _generator_loops(tree):
                     blk.remove(st)
 
 
+def _flag_loops(tree):
+    """``done = False`` / ``while c and not done: ... done = True`` (as the
+    last thing an iteration does) / ``if not done: X`` is the loop that
+    leaves with ``break`` and has X as its ``else``."""
+    for fn in ast.walk(tree):
+        if not isinstance(fn, (ast.FunctionDef, ast.AsyncFunctionDef)):
+            continue
+        for node in ast.walk(fn):
+            for fld in ('body', 'orelse', 'finalbody'):
+                blk = getattr(node, fld, None)
+                if not (isinstance(blk, list) and len(blk) >= 2 and
+                        isinstance(blk[0], ast.stmt)):
+                    continue
+                for i in range(len(blk) - 1):
+                    a, lp = blk[i], blk[i + 1]
+                    if not (isinstance(a, ast.Assign) and len(
+                            a.targets) == 1 and isinstance(
+                                a.targets[0], ast.Name) and isinstance(
+                                    a.value, ast.Constant) and
+                            a.value.value is False and isinstance(
+                                lp, ast.While) and not lp.orelse):
+                        continue
+                    flag = a.targets[0].id
+                    t = lp.test
+                    conj = t.values if isinstance(t, ast.BoolOp) and \
+                        isinstance(t.op, ast.And) else [t]
+                    mine = [c for c in conj if isinstance(c, ast.UnaryOp)
+                            and isinstance(c.op, ast.Not) and isinstance(
+                                c.operand, ast.Name) and
+                            c.operand.id == flag]
+                    if len(mine) != 1 or len(conj) < 2:
+                        continue
+                    # every store of the flag inside the loop is a constant,
+                    # the last statement of a tail block of the body
+                    tails = [b for b in _tail_blocks(lp.body)]
+                    sets = []
+                    ok = True
+                    for x in ast.walk(lp):
+                        if isinstance(x, ast.Name) and x.id == flag and \
+                                isinstance(x.ctx, ast.Store):
+                            st = None
+                            for b in tails:
+                                if b and isinstance(b[-1], ast.Assign) and \
+                                        any(x is y for y in ast.walk(b[-1])):
+                                    st = (b, b[-1])
+                            if st is None or not (isinstance(
+                                    st[1].value, ast.Constant) and isinstance(
+                                        st[1].value.value, bool)):
+                                ok = False
+                            else:
+                                sets.append(st)
+                    if not ok or not sets:
+                        continue
+                    # reads: the loop test and, at most, an if right after
+                    reads = [x for x in ast.walk(fn) if isinstance(
+                        x, ast.Name) and x.id == flag and isinstance(
+                            x.ctx, ast.Load)]
+                    after = blk[i + 2] if i + 2 < len(blk) else None
+                    tail_if = None
+                    if isinstance(after, ast.If) and not after.orelse and \
+                            isinstance(after.test, ast.UnaryOp) and \
+                            isinstance(after.test.op, ast.Not) and \
+                            isinstance(after.test.operand, ast.Name) and \
+                            after.test.operand.id == flag:
+                        tail_if = after
+                    if len(reads) != 1 + (1 if tail_if is not None else 0):
+                        continue
+                    stores = [x for x in ast.walk(fn) if isinstance(
+                        x, ast.Name) and x.id == flag and isinstance(
+                            x.ctx, ast.Store)]
+                    if len(stores) != len(sets) + 1:
+                        continue
+                    for b, st in sets:
+                        if st.value.value is True:
+                            b[-1] = ast.copy_location(ast.Break(), st)
+                        elif len(b) > 1:
+                            del b[-1]
+                        else:
+                            b[-1] = ast.copy_location(ast.Pass(), st)
+                    rest = [c for c in conj if c is not mine[0]]
+                    lp.test = rest[0] if len(rest) == 1 else \
+                        ast.copy_location(ast.BoolOp(op=ast.And(),
+                                                     values=rest), t)
+                    if tail_if is not None:
+                        lp.orelse = tail_if.body
+                        del blk[i + 2]
+                    del blk[i]
+                    break
+
+
 def _first_match(tree):
     """``found = next((e for x in xs if c), d)`` - directly, or through a
     name bound to the generator in the statement before and used nowhere
@@ -1609,6 +1699,7 @@ def normalise(tree):
     _getter_calls(tree)
     _chain_loops(tree)
     _generator_loops(tree)
+    _flag_loops(tree)
     _plain_idioms(tree)
     _filtered_iteration(tree)
     _conditional_expressions(tree)
